@@ -6,6 +6,7 @@ import (
 	"math/rand"
 	"os"
 	"path/filepath"
+	"sort"
 	"strings"
 
 	"github.com/Vedant9500/WTF/internal/database"
@@ -18,6 +19,13 @@ import (
 // "non-finite" (a few NaN / +Inf / -Inf components), "huge" (components around 1e38: sums overflow float32), "cased" (the
 // vocabulary also holds capitalised and upper-case spellings of some words, with vectors of their own).
 func attachEmbeddings(ctx *Ctx, r *rand.Rand, db *database.Database, flavour string) bool {
+	return attachEmbeddingsExtra(ctx, r, db, flavour, nil)
+}
+
+// attachEmbeddingsExtra: the word table also holds the keys of `extra` (words no entry contains - a general-purpose word table
+// knows far more words than a command database uses), each with a vector close to that of the database word it maps to, as a
+// synonym or a common misspelling has.
+func attachEmbeddingsExtra(ctx *Ctx, r *rand.Rand, db *database.Database, flavour string, extra map[string]string) bool {
 	dir := filepath.Join(ctx.Scratch, fmt.Sprintf("emb-%d", r.Int63()))
 	if os.MkdirAll(dir, 0o755) != nil {
 		return false
@@ -61,6 +69,26 @@ func attachEmbeddings(ctx *Ctx, r *rand.Rand, db *database.Database, flavour str
 		wv[w] = v
 		wl = append(wl, w)
 		vl = append(vl, v)
+	}
+	{
+		var ks []string
+		for w := range extra {
+			ks = append(ks, w)
+		}
+		sort.Strings(ks)
+		for _, w := range ks {
+			near, ok := wv[extra[w]]
+			if _, dup := wv[w]; dup || w == "" || !ok {
+				continue
+			}
+			v := make([]float32, len(near))
+			noise := c19Gauss(r, 100)
+			for j := range v {
+				v[j] = near[j] + 0.02*noise[j]
+			}
+			wl = append(wl, w)
+			vl = append(vl, v)
+		}
 	}
 	var cv [][]float32
 	for k := range db.Commands {
